@@ -7,6 +7,7 @@ import PyPhysim.Proofs.C04Mse
 import PyPhysim.Proofs.C04Gmd
 import PyPhysim.Proofs.C04Rank
 import PyPhysim.Proofs.C04Examples
+import PyPhysim.Proofs.C04ObjLimit
 
 /-!
 # C04 — MIMO schemes recover data over any full-rank channel within the power budget
@@ -408,6 +409,71 @@ theorem gmd_step_preserves (d1 d2 sb : ℝ) (h2 : 0 ≤ d2) (h12 : d2 < d1) (hlo
   obtain ⟨hc, hs⟩ := Pf.gmd_cs d1 d2 sb h2 h12 hlo hhi
   exact Pf.gmd_step d1 d2 sb c s hsb hc hs
 
+/-! ## the scheme objects as state machines: no stale derived state
+
+`Model/C04Obj.lean`: an object is constructed with a channel and then driven by any
+history of `set_channel_matrix`, `set_noise_var`, `encode`, `decode`,
+precoder / filter and SINR queries (`Op`).  The kernels are a function parameter `K`. -/
+
+/-- **After ANY history the object is its current configuration and nothing else.**
+    The state reached is `(scheme, channel, noise variance)` with the channel / noise
+    variance of the last *accepted* `set_channel_matrix` / `set_noise_var` call (`cfgChan`,
+    `cfgNv`, defined over the history independently of `step`; rejected calls and all
+    `encode` / `decode` / query calls leave no trace). -/
+theorem object_state_is_configuration (K : Kernels ℂ) (ops : List (Op ℂ)) (o : Obj ℂ) :
+    run K o ops = ⟨o.scheme, cfgChan o.scheme o.chan ops, cfgNv o.scheme o.nv ops⟩ :=
+  Pf.run_state K ops o
+
+/-- **Every observation after a history equals the one of a freshly configured object.**
+    `o0 = cls(c0)` driven through `ops`, versus `f = cls(cL)` followed by
+    `set_noise_var(vL)`, where `cL` stores the channel and `vL` the noise variance the
+    history leaves configured: `encode`, `decode`, the precoder / receive filter pair and
+    the SINRs agree — whatever was decoded, with whatever filter, earlier in the history. -/
+theorem history_eq_fresh_object (K : Kernels ℂ) (s : Scheme) (c0 cL : ChanArg ℂ) (o0 f : Obj ℂ)
+    (h0 : construct s c0 = .ok o0) (hf : construct s cL = .ok f) (ops : List (Op ℂ))
+    (hc : f.chan = cfgChan s o0.chan ops) (vL : Option ℂ)
+    (hv : s.blastFamily = true → setNoiseVar vL = .ok (cfgNv s o0.nv ops)) (obs : Op ℂ) :
+    (step K (run K o0 ops) obs).2 = (step K (run K f [.setNoiseVar vL]) obs).2 := by
+  rw [Pf.run_eq_fresh K s c0 cL o0 f h0 hf ops hc vL hv]
+
+/-- observations never change the state (so they cannot make a later observation stale) -/
+theorem observation_keeps_state (K : Kernels ℂ) (o : Obj ℂ) (op : Op ℂ)
+    (h : ∀ c, op ≠ .setChannel c) (h' : ∀ v, op ≠ .setNoiseVar v) : (step K o op).1 = o :=
+  Pf.step_obs_state K o op h h'
+
+/-- **Round trip after any history (Blast / MRC).**  Whatever the object did before
+    (decodes with an MMSE filter included), once the configured noise variance is `None`/`0`
+    (not positive) and the configured channel has full column rank, decoding the noise-free
+    channel output of what the object encodes returns the data. -/
+theorem blast_object_roundtrip_after_history (K : Kernels ℂ) (o0 : Obj ℂ)
+    (hs : o0.scheme = .blast ∨ o0.scheme = .mrc) (ops : List (Op ℂ))
+    (hr : FullColRank (run K o0 ops).chan.H)
+    (hp : IsPinv (run K o0 ops).chan.H (K.pinv (run K o0 ops).chan.H))
+    (hnv : ¬ 0 < (run K o0 ops).nv.re) (x : Vec ℂ n)
+    (E : Mat ℂ (run K o0 ops).chan.nt (n / (run K o0 ops).chan.nt))
+    (hE : (step K (run K o0 ops) (.encode n x)).2 = .mat _ _ E) :
+    ∃ d : Vec ℂ ((run K o0 ops).chan.nt * (n / (run K o0 ops).chan.nt)),
+      (step K (run K o0 ops) (.decode _ _ (matMul (run K o0 ops).chan.H E))).2 = .vec _ d ∧
+      ∀ (j : Nat) (hj : j < n) (hj' : j < (run K o0 ops).chan.nt * (n / (run K o0 ops).chan.nt)),
+        d ⟨j, hj'⟩ = x ⟨j, hj⟩ := by
+  have hs' : (run K o0 ops).scheme = .blast ∨ (run K o0 ops).scheme = .mrc := by
+    rw [Pf.run_scheme]; exact hs
+  exact Pf.blast_obj_roundtrip K (run K o0 ops) hs' hr hp hnv x E hE
+
+/-- **SNR sweep on one object.**  `set_noise_var(σ²)` replaces the stored noise variance and
+    nothing else, and the receive filter the object then computes tends, entry by entry, to
+    the zero-forcing filter it computes after `set_noise_var(0)` / `set_noise_var(None)`. -/
+theorem object_sweep_tendsto_zf (K : Kernels ℂ) (o : Obj ℂ) (hb : o.scheme.blastFamily = true)
+    (hr : FullColRank o.chan.H) (hp : IsPinv o.chan.H (K.pinv o.chan.H))
+    (hsol : ∀ s : ℝ, 0 < s → IsSolve (mmseLhs o.chan.H (s : ℂ)) (mmseRhs o.chan.H)
+      (K.solve (mmseLhs o.chan.H (s : ℂ)) (mmseRhs o.chan.H))) :
+    (∀ s : ℝ, 0 ≤ s → (step K o (.setNoiseVar (some (s : ℂ)))).1 = { o with nv := (s : ℂ) }) ∧
+    (step K o (.setNoiseVar none)).1 = { o with nv := 0 } ∧
+    ∀ i j, Tendsto (fun s : ℝ => blastFilterK K o.chan.H (s : ℂ) i j) (𝓝[>] 0)
+      (𝓝 (blastFilterK K o.chan.H 0 i j)) :=
+  ⟨fun s hs => (Pf.step_setNoiseVar K o hb s hs).1, (Pf.step_setNoiseVar K o hb 0 le_rfl).2,
+    fun i j => Pf.blastFilterK_tendsto K o.chan.H hr hp hsol i j⟩
+
 /-! ## non-vacuity: concrete values satisfying the hypotheses -/
 
 /-- the `pinv` contract and full column rank hold for the 2×1 channel `[1, j]ᵀ` with
@@ -433,5 +499,19 @@ example : ∃ E, blastEncode 2 (fun i : Fin 4 => (i.val : ℂ)) = .ok E := ⟨_,
 
 /-- the hypotheses of `gmd_step_preserves` hold for `δ = (4, 1)`, `σ̄ = 2` -/
 example : (0:ℝ) ≤ 1 ∧ (1:ℝ) < 4 ∧ (1:ℝ) ≤ 2 ∧ (2:ℝ) ≤ 4 ∧ (2:ℝ) ≠ 0 := by norm_num
+
+/-- the hypotheses of `history_eq_fresh_object` are satisfiable by a non-trivial history:
+    a Blast object built on `[1, j]ᵀ`, switched to MMSE, re-pointed to `[2, 0]ᵀ` and switched
+    back to zero forcing is configured like `Blast([2, 0]ᵀ)` followed by `set_noise_var(None)` -/
+example (y : Mat ℂ 2 1) :
+    ∃ o0 f : Obj ℂ, construct .blast (.mat 2 1 Ex.H) = .ok o0 ∧ construct .blast (.mat 2 1 Ex.H2) = .ok f ∧
+      f.chan = cfgChan .blast o0.chan
+        [.setNoiseVar (some ((1 / 2 : ℝ) : ℂ)), .decode 2 1 y, .setChannel (.mat 2 1 Ex.H2), .setNoiseVar none] ∧
+      setNoiseVar (none : Option ℂ) = .ok (cfgNv .blast o0.nv
+        [.setNoiseVar (some ((1 / 2 : ℝ) : ℂ)), .decode 2 1 y, .setChannel (.mat 2 1 Ex.H2), .setNoiseVar none]) := by
+  refine ⟨⟨.blast, ⟨2, 1, Ex.H⟩, 0⟩, ⟨.blast, ⟨2, 1, Ex.H2⟩, 0⟩, rfl, rfl, ?_, ?_⟩
+  · simp [cfgChan, storeChan]
+  · have h : (0 : ℝ) ≤ 1 / 2 := by norm_num
+    simp [cfgNv, Scheme.blastFamily, setNoiseVar, nonnegB_def]
 
 end PyPhysim.C04
